@@ -55,7 +55,10 @@ Record obs := {
   o_total : list (str * Z);       (* http_requests_total by "code|method" *)
   o_lact : Z;                     (* listener_cx_active *)
   o_dact : Z;                     (* dialer_cx_active *)
+  o_upopen : Z;                   (* connections from the proxy a watching scripted upstream still sees open at quiescence *)
   o_harness_ok : bool;
+  o_handler : bool;               (* driven through martian's http.Handler: net/http's server reads the requests, so no
+                                     read event without a request is ever reported, and closing is the server's decision *)
   o_shutdown : bool               (* the harness shut the proxy down during the case: the property does not apply *)
 }.
 
@@ -148,7 +151,8 @@ Definition zsum (g : list (str * Z)) : Z := fold_right (fun kv a => (snd kv + a)
 (* ---- correspondence ---- *)
 Definition obs_model_ok (o : obs) : bool :=
   o_harness_ok o &&
-  list_eqb tev_eqb (conn_trace (o_exs o)) (o_trace o) &&
+  list_eqb tev_eqb (if o_handler o then filter (fun e => negb (t_read e) || t_hasreq e) (conn_trace (o_exs o))
+                    else conn_trace (o_exs o)) (o_trace o) &&
   forallb (fun x => negb (x_seen x) || (client_status x =? x_client x)) (o_exs o) &&
   (negb (o_check_end o) || Bool.eqb (o_closed o) (negb (last_keeps (o_exs o)))) &&
   gauge_eqb (prom_inflight (o_trace o) []) (o_inflight o) &&
@@ -195,7 +199,7 @@ Definition obs_prop_ok (o : obs) : bool :=
   statuses_agree (o_exs o) (wrote_statuses (o_trace o)) &&
   forallb (fun kv => Z.eqb (snd kv) 0%Z) (o_inflight o) &&
   Z.eqb (zsum (o_total o)) (n_reads (o_trace o)) &&
-  Z.eqb (o_lact o) 0%Z && Z.eqb (o_dact o) 0%Z.
+  Z.eqb (o_lact o) 0%Z && Z.eqb (o_dact o) 0%Z && Z.eqb (o_upopen o) 0%Z.
 
 (* ---- many connections at once against one proxy ---- *)
 Record mobs := {
